@@ -87,7 +87,9 @@ def handle : Handler := fun st op j =>
     let kss ← (match fieldOpt j "kss" with
       | none => pure []
       | some v => do (← asArr v).mapM asStr : R (List String))
-    match Decode.proofList (← field j "proofs") with
+    -- "direct": the proofs are in-memory objects (no wire format, negative integers possible)
+    let direct := (getBool j "direct").toOption.getD false
+    match Decode.proofList (← field j "proofs") direct with
     | .error _ => pure (st, "decode-error")
     | .ok pl =>
       let o := Decode.sigOracle (views j)
@@ -100,7 +102,8 @@ def handle : Handler := fun st op j =>
     let ctx ← getInt j "context"
     let nonce ← getInt j "nonce"
     let issig ← getBool j "issig"
-    match Decode.proofD (← field j "proof") with
+    let direct := (getBool j "direct").toOption.getD false
+    match Decode.proofD (← field j "proof") direct with
     | .error _ => pure (st, "decode-error")
     | .ok p =>
       let o := Decode.sigOracle (views j)
@@ -294,7 +297,8 @@ def handle : Handler := fun st op j =>
     let pk ← st.key (← getStr j "key")
     let ctx ← getInt j "context"
     let nonce ← getInt j "nonce"
-    match Decode.proofU (← field j "proof") with
+    let direct := (getBool j "direct").toOption.getD false
+    match Decode.proofU (← field j "proof") direct with
     | .error _ => pure (st, "decode-error")
     | .ok p => pure (st, showGoMBool (p.verify pk ctx nonce))
   | "cl-verify" => some do
